@@ -129,8 +129,8 @@ Proof.
   - (* sdv register *)
     unfold sdv_register. apply sdv_register_core.
   - (* v1 subscribe *)
-    unfold v1_subscribe, core_subscribe.
-    destruct (v1_sub_entries st (get_perm st p) path (fields_of_mask mask)) as [es|code]; [|reflexivity].
+    unfold v1_subscribe_multi, core_subscribe. destruct l as [|x l']; [reflexivity|].
+    destruct (v1_sub_all st (get_perm st p) (x :: l') []) as [es|code]; [|reflexivity].
     destruct (subscribe st (get_perm st p) es None) as [st' [h|e]] eqn:E; cbn [fst];
       unfold exec_all; cbn [fold_left]; unfold exec_state; rewrite E; reflexivity.
   - (* v2 subscribe *)
